@@ -9,7 +9,14 @@ from __future__ import annotations
 
 import z3
 
+import hashlib
+
 from .sym import SBool, Seg, Unsupported, ctx, has_seg, mk_bool, sym_len, tagstr, zint
+
+
+def _short(t):
+    r = repr(t)
+    return hashlib.sha1(r.encode()).hexdigest()[:8]
 
 
 class Hole:
@@ -212,7 +219,7 @@ def t_edge_char_eq(t, ch, last=False):
     # anything else: an unconstrained fact about the whole template's edge, named after
     # the template text so that it is stable across re-executions (sound: both outcomes
     # are explored)
-    return mk_bool(z3.Bool(f"edge:{'last' if last else 'first'}=={ch!r}:{t!r}"))
+    return mk_bool(z3.Bool(f"edge:{'last' if last else 'first'}=={ch!r}:{_short(t)}"))
 
 
 def t_isdigit(t):
@@ -228,7 +235,7 @@ def t_isdigit(t):
     for p in t.parts:
         if isinstance(p, str) and not p.isdigit():
             return False
-    return mk_bool(z3.Bool(f"isdigit:{t!r}"))
+    return mk_bool(z3.Bool(f"isdigit:{_short(t)}"))
 
 
 def t_contains(sub, t):
@@ -238,7 +245,7 @@ def t_contains(sub, t):
         return True
     if all(isinstance(p, str) for p in t.parts):
         return False
-    return mk_bool(z3.Bool(f"contains:{sub!r}:{t!r}"))
+    return mk_bool(z3.Bool(f"contains:{sub!r}:{_short(t)}"))
 
 
 def t_replace(t, a, b):
